@@ -198,9 +198,9 @@ theorem keyIn_mItemsField {st : Store} {rec : MRec} {c : Option NodeId} {a : Opt
 
 /-- the tagged / wrapper names in emission order, written as the append chain the member list has -/
 def emittedNames : List String :=
-  (((((((((((((((((((((((((((((((((((((((((((((((((((((((((((["type"] ++ ["properties"]) ++ ["dependencies"]) ++ ["items"]) ++ ["enum"]) ++ ["anyOf"]) ++ ["oneOf"]) ++ ["$id"]) ++ ["$schema"]) ++ ["$ref"]) ++ ["$comment"]) ++ ["$defs"]) ++ ["definitions"]) ++ ["$anchor"]) ++ ["$dynamicAnchor"]) ++ ["$dynamicRef"]) ++ ["$vocabulary"]) ++ ["title"]) ++ ["description"]) ++ ["default"]) ++ ["deprecated"]) ++ ["readOnly"]) ++ ["writeOnly"]) ++ ["examples"]) ++ ["const"]) ++ ["multipleOf"]) ++ ["minimum"]) ++ ["maximum"]) ++ ["exclusiveMinimum"]) ++ ["exclusiveMaximum"]) ++ ["minLength"]) ++ ["maxLength"]) ++ ["pattern"]) ++ ["prefixItems"]) ++ ["minItems"]) ++ ["maxItems"]) ++ ["additionalItems"]) ++ ["uniqueItems"]) ++ ["contains"]) ++ ["minContains"]) ++ ["maxContains"]) ++ ["unevaluatedItems"]) ++ ["minProperties"]) ++ ["maxProperties"]) ++ ["required"]) ++ ["dependentRequired"]) ++ ["patternProperties"]) ++ ["additionalProperties"]) ++ ["propertyNames"]) ++ ["unevaluatedProperties"]) ++ ["allOf"]) ++ ["not"]) ++ ["if"]) ++ ["then"]) ++ ["else"]) ++ ["dependentSchemas"]) ++ ["contentEncoding"]) ++ ["contentMediaType"]) ++ ["contentSchema"]) ++ ["format"])
+  (((((((((((((((((((((((((((((((((((((((((((((((((((((((((((["type"] ++ ["properties"]) ++ ["dependencies"]) ++ ["items"]) ++ ["enum"]) ++ ["anyOf"]) ++ ["oneOf"]) ++ ["$vocabulary"]) ++ ["$id"]) ++ ["$schema"]) ++ ["$ref"]) ++ ["$comment"]) ++ ["$defs"]) ++ ["definitions"]) ++ ["$anchor"]) ++ ["$dynamicAnchor"]) ++ ["$dynamicRef"]) ++ ["title"]) ++ ["description"]) ++ ["default"]) ++ ["deprecated"]) ++ ["readOnly"]) ++ ["writeOnly"]) ++ ["examples"]) ++ ["const"]) ++ ["multipleOf"]) ++ ["minimum"]) ++ ["maximum"]) ++ ["exclusiveMinimum"]) ++ ["exclusiveMaximum"]) ++ ["minLength"]) ++ ["maxLength"]) ++ ["pattern"]) ++ ["prefixItems"]) ++ ["minItems"]) ++ ["maxItems"]) ++ ["additionalItems"]) ++ ["uniqueItems"]) ++ ["contains"]) ++ ["minContains"]) ++ ["maxContains"]) ++ ["unevaluatedItems"]) ++ ["minProperties"]) ++ ["maxProperties"]) ++ ["required"]) ++ ["dependentRequired"]) ++ ["patternProperties"]) ++ ["additionalProperties"]) ++ ["propertyNames"]) ++ ["unevaluatedProperties"]) ++ ["allOf"]) ++ ["not"]) ++ ["if"]) ++ ["then"]) ++ ["else"]) ++ ["dependentSchemas"]) ++ ["contentEncoding"]) ++ ["contentMediaType"]) ++ ["contentSchema"]) ++ ["format"])
 
-theorem emittedNames_eq : emittedNames = ["type", "properties", "dependencies", "items", "enum", "anyOf", "oneOf", "$id", "$schema", "$ref", "$comment", "$defs", "definitions", "$anchor", "$dynamicAnchor", "$dynamicRef", "$vocabulary", "title", "description", "default", "deprecated", "readOnly", "writeOnly", "examples", "const", "multipleOf", "minimum", "maximum", "exclusiveMinimum", "exclusiveMaximum", "minLength", "maxLength", "pattern", "prefixItems", "minItems", "maxItems", "additionalItems", "uniqueItems", "contains", "minContains", "maxContains", "unevaluatedItems", "minProperties", "maxProperties", "required", "dependentRequired", "patternProperties", "additionalProperties", "propertyNames", "unevaluatedProperties", "allOf", "not", "if", "then", "else", "dependentSchemas", "contentEncoding", "contentMediaType", "contentSchema", "format"] := rfl
+theorem emittedNames_eq : emittedNames = ["type", "properties", "dependencies", "items", "enum", "anyOf", "oneOf", "$vocabulary", "$id", "$schema", "$ref", "$comment", "$defs", "definitions", "$anchor", "$dynamicAnchor", "$dynamicRef", "title", "description", "default", "deprecated", "readOnly", "writeOnly", "examples", "const", "multipleOf", "minimum", "maximum", "exclusiveMinimum", "exclusiveMaximum", "minLength", "maxLength", "pattern", "prefixItems", "minItems", "maxItems", "additionalItems", "uniqueItems", "contains", "minContains", "maxContains", "unevaluatedItems", "minProperties", "maxProperties", "required", "dependentRequired", "patternProperties", "additionalProperties", "propertyNames", "unevaluatedProperties", "allOf", "not", "if", "then", "else", "dependentSchemas", "contentEncoding", "contentMediaType", "contentSchema", "format"] := rfl
 
 theorem keys_mMembers_sub (n : Node) (props : List (String × Json)) (deps : Option Json)
     (items defs definitions prefixItems additionalItems contains unevaluatedItems patternProperties additionalProperties propertyNames unevaluatedProperties allOf anyOf oneOf not_ if_ then_ else_ dependentSchemas contentSchema : List (String × Json))
@@ -252,7 +252,6 @@ theorem keys_mMembers_sub (n : Node) (props : List (String × Json)) (deps : Opt
   refine List.Sublist.append ?_ (keys_sub (keyIn_mem _ _))
   refine List.Sublist.append ?_ (keys_sub (keyIn_mStr _ _))
   refine List.Sublist.append ?_ (keys_sub (keyIn_mStr _ _))
-  refine List.Sublist.append ?_ (keys_sub (keyIn_mVocab n))
   refine List.Sublist.append ?_ (keys_sub (keyIn_mStr _ _))
   refine List.Sublist.append ?_ (keys_sub (keyIn_mStr _ _))
   refine List.Sublist.append ?_ (keys_sub (keyIn_mStr _ _))
@@ -262,6 +261,7 @@ theorem keys_mMembers_sub (n : Node) (props : List (String × Json)) (deps : Opt
   refine List.Sublist.append ?_ (keys_sub (keyIn_mStr _ _))
   refine List.Sublist.append ?_ (keys_sub (keyIn_mStr _ _))
   refine List.Sublist.append ?_ (keys_sub (keyIn_mStr _ _))
+  refine List.Sublist.append ?_ (keys_sub (keyIn_mVocab n))
   refine List.Sublist.append ?_ (keys_sub honeOf)
   refine List.Sublist.append ?_ (keys_sub hanyOf)
   refine List.Sublist.append ?_ (keys_sub (keyIn_mem _ _))
